@@ -314,7 +314,7 @@ class SymEval:
             key = "%s(%r)" % (cond["op"], l - r)
             if isinstance(t[1], PW) or isinstance(f[1], PW):
                 return ("unk", "nested piecewise value")
-            return ("s", PW(key, t[1], f[1]))
+            return ("s", PW(key, t[1], f[1], (cond["op"], l - r)))
         # any other condition (tracking flags): both branches are possible values
         return self.mk_alt([t, f])
 
@@ -479,6 +479,11 @@ class SymEval:
                         if xx[0] in ("s", "v", "arr") and not isinstance(xx[1], PW):
                             self.divisors.append(xx[1])
                 return self.map1(x, lambda v: v.powlf(pl))
+            if m == "abs":
+                # |x|: an opaque function of its argument (never equal to the argument itself)
+                def _abs(v):
+                    return self.alg.atom("abs[%r]" % v)
+                return self.map1(x, _abs)
             if m in ("copysign",) and len(args) == 2:
                 # +-|x| with the sign of the second argument: an opaque value (never equal to anything else)
                 y = self.ev(args[1], env)
@@ -517,7 +522,7 @@ class SymEval:
             if cal.get("resolved_local"):
                 return self.local_call(e, env, [a])
             return self.map1(a, lambda v: -v)
-        if self.detach and r.startswith("<%s as core::ops::index::Index<" % ARRAY) and args:
+        if (self.detach or self.uninterp) and r.startswith("<%s as core::ops::index::Index<" % ARRAY) and args:
             a = self.ev(args[0], env)
             return ("s", self.alg.atom("elem[%r]" % a[1])) if a[0] == "arr" and not isinstance(a[1], PW) else ("unk", "element of %s" % a[0])
         if r == "corgi::array::Array::values" and args:
@@ -584,6 +589,12 @@ class SymEval:
                 a = self.ev(args[0], env)
                 if a[0] == "v" and not isinstance(a[1], PW):
                     return ("s", self.alg.atom("sigma[%r]" % a[1]))
+                if a[0] == "dims":
+                    return ("s", self.alg.atom("dimsum[%s]" % a[1]))
+            if c in ("core::slice::<impl [T]>::last", "core::slice::<impl [T]>::first") and args:
+                a = self.ev(args[0], env)
+                if a[0] == "dims":
+                    return ("opt", ("s", self.alg.atom(("dimlast[%s]" if c.endswith("last") else "dim0[%s]") % a[1])))
             if c in ("alloc::vec::Vec::<T, A>::len", "core::slice::<impl [T]>::len") and args:
                 a = self.ev(args[0], env)
                 if a[0] == "v":
